@@ -8,6 +8,7 @@ CONSTANTS
   PublishOnError = TRUE
   Crashes = {"kill"}
   Faults = FALSE
+  MaxFaults = 1
   Damages = TRUE
 INVARIANT TypeOK
 INVARIANT ReaderPinned
